@@ -171,7 +171,7 @@ def build_module(module, flags=(), san="plain", extra_sources=(), driver_src=Non
 BUILTIN_NAMES = ["true", "false", "BOOLEAN", "NULL", "INTEGER", "ENUMERATED", "REAL", "BIT_STRING", "OCTET_STRING",
                  "OBJECT_IDENTIFIER", "RELATIVE-OID", "SEQUENCE", "SET", "CHOICE", "SEQUENCE_OF", "SET_OF", "IA5String",
                  "VisibleString", "PrintableString", "NumericString", "UTF8String", "BMPString", "UniversalString",
-                 "UTCTime", "GeneralizedTime", "PLUS-INFINITY", "MINUS-INFINITY", "NOT-A-NUMBER", ""]
+                 "UTCTime", "GeneralizedTime", "PLUS-INFINITY", "MINUS-INFINITY", "NOT-A-NUMBER", "zz-unknown", ""]
 _names_file = None
 
 
@@ -441,7 +441,7 @@ def load_findings(prop):
     p = os.path.join(VERIF, "known_findings.json")
     if not os.path.exists(p):
         return []
-    return [f for f in json.load(open(p))["findings"] if prop in f["properties"] and f["status"] == "open"]
+    return [f for f in json.load(open(p))["findings"] if f["status"] == "open"]
 
 
 def finding_matches(f, sig):
